@@ -23,8 +23,12 @@ RULE = ("case kinds: nest = (fiber|tensor path, default, rectangular nest of dep
         "observation = built tree, shape, uncompress(shape) and uncompress(); dictionary form, "
         "dict2fiber(fiber2dict), fiber and tensor YAML dump->load (both loaders) with rank ids, shape, name, "
         "tree and ==; fromRandom tree over the injected stream plus reproducibility/inside/full flags "
-        "for the real PRNG. distinct = distinct canonical JSON; non-trivial = nest/tree has a non-default "
-        "entry, or a random case with non-zero density")
+        "for the real PRNG. default=None (no empty value; fromUncompressed, makePopulated, fromFiber+YAML, "
+        "fromRandom) is the sentinel default -999983 that never occurs as a payload, None handed to the "
+        "implementation and mapped back; shared representation modes: int / float / int-subclass values "
+        "(not the subclass through YAML), read-only query battery between building and converting, fibers "
+        "of tree cases built in two stages. distinct = distinct canonical JSON; non-trivial = nest/tree has "
+        "a non-default entry, or a random case with non-zero density")
 TRUSTED = ["Coq 8.16.1 kernel (coqc; coqchk in the thorough tier); vm_compute used; native_compute not used",
            "Print Assumptions of every C13 theorem: Closed under the global context (no axioms)",
            "hand-written Gallina model coq/Model/C13Convert.v of fiber.py/tensor.py/payload.py conversion code, "
@@ -34,7 +38,9 @@ TRUSTED = ["Coq 8.16.1 kernel (coqc; coqchk in the thorough tier); vm_compute us
            "the model: exercised by the correspondence only",
            "values: Python ints and dyadic floats are mapped to Z by x -> x or x -> 2x (exact); int vs float "
            "type is not modelled (the code compares with == only)"]
-ASSUMPTIONS = ["0 <= random.random() < 1 and 1 <= random.randint(1, n) <= n (the abstract stream has these by "
+ASSUMPTIONS = ["default=None behaves like a default value that no payload ever equals (the model's default is "
+               "an integer; the sentinel never occurs in a generated nest, tree or draw)",
+               "0 <= random.random() < 1 and 1 <= random.randint(1, n) <= n (the abstract stream has these by "
                "construction)",
                "rank ids and names are opaque (round-tripped by PyYAML as strings)",
                "== of fibers compares content over non-empty elements (property C12)"]
@@ -50,10 +56,21 @@ ERR = {"AssertionError": 1, "IndexError": 3, "TypeError": 4, "SystemExit": 6}
 # ------------------------------------------------------------------ values
 # mode 0: Z = the int itself; mode 1: Z = 2x, odd -> float, even -> int;
 # mode 2: Z = 2x, every entry and the default are floats; mode 3: entries floats, default int
+#
+# default=None ("no empty value": Tensor.makePopulated, fromRandom, Fiber(default=None)) is the sentinel
+# NONE_D in the case: a value that never occurs as a payload, so in the model nothing equals the default
+# and nothing is empty - exactly what None means.  The implementation is handed None; a None that comes
+# back (as the default, or as a fill value) is mapped to NONE_D again.
+# In mode 0 the values take the shared representation mode (U.dress: int / float / int subclass).
+NONE_D = -999983
+
 
 def dec(z, mode, is_default=False):
+    if z == NONE_D:
+        assert is_default, "the sentinel never occurs as a payload"
+        return None
     if mode == 0:
-        return z
+        return U.dress(z) if DRESS else z
     if mode == 1:
         return z // 2 if z % 2 == 0 else z / 2.0
     if mode == 2 or not is_default:
@@ -61,7 +78,13 @@ def dec(z, mode, is_default=False):
     return z // 2 if z % 2 == 0 else z / 2.0
 
 
+DRESS = True      # run_tree switches it off for int-subclass values (see there)
+
+
 def enc(x, mode):
+    if x is None:
+        return NONE_D
+    x = U.undress(x) if mode == 0 else x
     if isinstance(x, bool) or not isinstance(x, (int, float)):
         raise TypeError("not a number: %r" % (x,))
     z = x if mode == 0 else 2 * x
@@ -115,9 +138,21 @@ def gen_nest_case(rng, depth=None, tensor=None):
         d = rng.choice([1, 5])             # a float default (0.5 / 2.5)
     p_def = rng.choice([0.0, 0.3, 0.6, 0.9, 1.0])
     p_row = rng.choice([0.0, 0.3, 0.6])
+    tp = rng.random() < 0.5 if tensor is None else tensor
+    if rng.random() < 0.2:
+        # default=None: every entry is stored; zeros (the value a None is most easily confused with)
+        # and all-zero rows are frequent
+        pz = rng.choice([0.2, 0.5, 0.9, 1.0])
+        n = gen_nest(rng, dims, 0, pz, p_row)
+        c = {"kind": "nest", "tensor": tp, "d": NONE_D, "dims": dims, "nest": n, "mode": mode}
+        if tp and rng.random() < 0.3:
+            # Tensor.makePopulated(rank_ids, shape, initial) = fromUncompressed of the constant nest
+            v = rng.choice([0, 0, 1, 7])
+            c["nest"] = gen_nest(rng, dims, v, 1.0, 0.0)
+            c["populated"] = True
+        return c
     n = gen_nest(rng, dims, d, p_def, p_row)
-    return {"kind": "nest", "tensor": rng.random() < 0.5 if tensor is None else tensor,
-            "d": d, "dims": dims, "nest": n, "mode": mode}
+    return {"kind": "nest", "tensor": tp, "d": d, "dims": dims, "nest": n, "mode": mode}
 
 
 def gen_tree_case(rng):
@@ -128,7 +163,13 @@ def gen_tree_case(rng):
         return {"kind": "tree", "d": 0, "ids": [], "shape": [], "name": rng.randrange(len(NAMES)),
                 "tree": rng.randint(-3, 9), "flat": False, "mode": mode}
     shapes = [rng.randint(1, 5) for _ in range(depth)]
-    tree = U.gen_fiber(rng, depth, shapes, d, vals=(-2, 9))
+    if rng.random() < 0.15:
+        # default=None (the sentinel is never stored; zeros are ordinary values - with one stored the
+        # case lies in region 2, the YAML form records no default)
+        d = NONE_D
+        tree = U.gen_fiber(rng, depth, shapes, d, p_zero=0.0, vals=rng.choice([(-2, 9), (1, 9)]))
+    else:
+        tree = U.gen_fiber(rng, depth, shapes, d, vals=(-2, 9))
     ids = rng.sample(range(len(U.RANK_NAMES)), depth)
     flat = depth >= 2 and rng.random() < 0.15
     return {"kind": "tree", "d": d, "ids": ids, "shape": shapes, "name": rng.randrange(len(NAMES)),
@@ -145,10 +186,11 @@ def gen_rand_case(rng):
     else:
         dens = [rng.choice(dens_vals + [1000, 1000]) for _ in range(depth)]
     interval = rng.choice([1, 3, 10])
-    d = rng.choice([0, 0, 0, 2, 11, -1])
+    d = rng.choice([0, 0, 0, 2, 11, -1, NONE_D])
     if d != 0 and not scalar:
         # a non-selected coordinate of an upper rank stores the *leaf* value 0 when default != 0
         # (fiber.py:511-515); Tensor.fromFiber cannot take such a tree - keep the upper ranks dense
+        # (for default=None fromRandom asserts it, fiber.py:489)
         dens = [1000] * (depth - 1) + [dens[-1]]
     vol = 1
     for s in shape:
@@ -221,6 +263,15 @@ def streams(tier, rng):
                 dims = [rng.randint(1, 3) for _ in range(depth)]
                 nests.append({"kind": "nest", "tensor": tp, "d": d, "dims": dims,
                               "nest": gen_nest(rng, dims, d, 1.0, 0.0), "mode": 0})
+    # default=None nests made of zeros only, every depth, both paths and makePopulated
+    for depth in (1, 2, 3, 4):
+        dims = [rng.randint(1, 3) for _ in range(depth)]
+        for tp, pop in ((False, False), (True, False), (True, True)):
+            c = {"kind": "nest", "tensor": tp, "d": NONE_D, "dims": dims,
+                 "nest": gen_nest(rng, dims, 0, 1.0, 0.0), "mode": rng.choice([0, 2])}
+            if pop:
+                c["populated"] = True
+            nests.append(c)
     trees = [gen_tree_case(rng) for _ in range(nt)]
     rands = [gen_rand_case(rng) for _ in range(nr)]
     main = [c for c in nests + trees + rands if py_region(c) == 0]
@@ -236,7 +287,7 @@ def streams(tier, rng):
     # exhaustive small scope: every 2x2 and 3-long nest over {default, 1, 2}, both paths, d in {0, 2}
     cases = []
     for dims in ([3], [2, 2], [1, 2, 2]) if quick else ([3], [4], [2, 2], [2, 3], [1, 2, 2], [2, 2, 2]):
-        for d in (0, 2):
+        for d in (0, 2, NONE_D):
             for n in all_nests(dims, [0, 1, 2]):
                 for tp in (False, True):
                     c = {"kind": "nest", "tensor": tp, "d": d, "dims": dims, "nest": n, "mode": 0}
@@ -259,14 +310,15 @@ def describe(c):
     r = {"kind": c["kind"], "region": py_region(c)}
     if c["kind"] == "nest":
         r.update(depth=len(c["dims"]), path="tensor" if c["tensor"] else "fiber", mode=c["mode"],
-                 all_default=not nontrivial(c), default=c["d"] != 0)
+                 all_default=not nontrivial(c), default="None" if c["d"] == NONE_D else c["d"] != 0,
+                 populated=bool(c.get("populated")))
     elif c["kind"] == "tree":
-        r.update(depth=len(c["shape"]), flat=c["flat"], default=c["d"] != 0,
+        r.update(depth=len(c["shape"]), flat=c["flat"], default="None" if c["d"] == NONE_D else c["d"] != 0,
                  explicit_default=U.has_explicit_default(c["tree"], c["d"]) if c["shape"] else False,
                  empty_subfiber=U.has_empty_sub(c["tree"], c["d"]) if c["shape"] else False)
     else:
         r.update(depth=len(c["shape"]), scalar=c["scalar"], full=all(x >= 1000 for x in c["dens"]),
-                 default=c["d"] != 0, draws=len(c["draws"]) > 0)
+                 default="None" if c["d"] == NONE_D else c["d"] != 0, draws=len(c["draws"]) > 0)
     return r
 
 
@@ -319,10 +371,20 @@ def _snap(f, mode):
 
 
 def _build_fiber(t, mode):
+    """tree literal -> Fiber; in the shared "touch" mode every fiber is built in two stages around a
+    battery of read-only queries (anything a read remembers is stale when the conversion runs)"""
     from fibertree import Fiber
     coords = [c for c, _ in t]
     pays = [dec(s, mode) if isinstance(s, int) else _build_fiber(s, mode) for _, s in t]
-    return Fiber(coords, pays)
+    if U.MODE["touch"] and len(coords) >= 2:
+        f = Fiber(coords[:-1], pays[:-1])
+        U.touch(f)
+        f.append(coords[-1], pays[-1])
+        return f
+    f = Fiber(coords, pays)
+    if U.MODE["touch"]:
+        U.touch(f)
+    return f
 
 
 def _dict_v(y, mode):
@@ -337,13 +399,25 @@ def run_nest(c):
     nest = dec_nest(c["nest"], mode)
     d = dec(c["d"], mode, True)
     dims = c["dims"]
-    if c["tensor"]:
-        T = Tensor.fromUncompressed(U.RANK_NAMES[:len(dims)], nest, default=d)
+    ids = U.RANK_NAMES[:len(dims)]
+    if c.get("populated"):
+        # the constant nest, built by the library itself (default=None is makePopulated's own default)
+        flat = nest
+        while isinstance(flat, list):
+            flat = flat[0]
+        T = Tensor.makePopulated(ids, list(dims), initial=flat) if d is None else \
+            Tensor.makePopulated(ids, list(dims), initial=flat, default=d)
+        f = T.getRoot()
+        shape = T.getShape()
+    elif c["tensor"]:
+        T = Tensor.fromUncompressed(ids, nest, default=d)
         f = T.getRoot()
         shape = T.getShape()
     else:
         f = Fiber.fromUncompressed(nest, default=d)
         shape = f.getShape()
+    if U.MODE["touch"]:
+        U.touch(f)                            # read-only queries between building and uncompressing
     tree = _snap(f, mode)
     u1 = _try(lambda: enc_nest(f.uncompress(shape=list(dims)), mode))
     u2 = _try(lambda: enc_nest(f.uncompress(), mode))
@@ -362,6 +436,20 @@ def _tens_obs(T, T2, mode):
 def run_tree(c):
     import tempfile, shutil
     from fibertree import Fiber, Tensor, Payload
+    global DRESS
+    mode = c["mode"]
+    # an int *subclass* payload is not a YAML scalar (PyYAML dumps it as a python/object tag, which is
+    # the harness's doing, not fibertree's): the YAML cases keep plain ints / floats
+    DRESS = U.MODE["vkind"] != "sub"
+    try:
+        return _run_tree(c)
+    finally:
+        DRESS = True
+
+
+def _run_tree(c):
+    import tempfile, shutil
+    from fibertree import Fiber, Tensor, Payload
     mode = c["mode"]
     d = dec(c["d"], mode, True)
     tmp = tempfile.mkdtemp(prefix="c13_")
@@ -373,6 +461,8 @@ def run_tree(c):
         else:
             T = Tensor.fromFiber(rank_ids=[U.RANK_NAMES[i] for i in c["ids"]], fiber=_build_fiber(c["tree"], mode),
                                  shape=list(c["shape"]), name=NAMES[c["name"]], default=d)
+            if U.MODE["touch"]:
+                U.touch(T.getRoot())
         if c["flat"]:
             F = T.flattenRanks()
             F.dump(fn)
@@ -406,7 +496,8 @@ def run_tree(c):
 def run_rand(c):
     import random
     from fibertree import Fiber, Tensor
-    shape, interval, d = list(c["shape"]), c["interval"], c["d"]
+    shape, interval = list(c["shape"]), c["interval"]
+    d = None if c["d"] == NONE_D else c["d"]
     dens = [x / 1000.0 for x in c["dens"]]
     density = dens[0] if c["scalar"] else dens
     ids = U.RANK_NAMES[:len(shape)]
@@ -421,6 +512,8 @@ def run_rand(c):
         T = Tensor.fromRandom(rank_ids=ids, shape=shape, density=density, interval=interval, default=d)
     finally:
         random.random, random.randint = saved
+    if U.MODE["touch"]:
+        U.touch(T.getRoot())
     inj = [_snap(T.getRoot(), 0), list(T.getShape())]
 
     # the real PRNG: same seed twice (fiber and tensor level) -> same tree; inside; full at density 1
@@ -442,7 +535,7 @@ def run_rand(c):
                 return k == len(shape) and t != d
             return k < len(shape) and [co for co, _ in t] == list(range(shape[k])) and all(full(s, k + 1) for _, s in t)
         ok = inside(s1, 0)
-        if all(x >= 1000 for x in c["dens"]) and not (1 <= d <= interval) and all(s > 0 for s in shape):
+        if all(x >= 1000 for x in c["dens"]) and (d is None or not (1 <= d <= interval)) and all(s > 0 for s in shape):
             ok = ok and full(s1, 0)
         return [repro, ok]
     return inj + [_try(real)]
@@ -464,7 +557,7 @@ def repro_py(c):
 def shrinks(c):
     import copy
     if c["kind"] == "nest":
-        d = c["d"]
+        d = 0 if c["d"] == NONE_D else c["d"]     # the sentinel is never written into a nest
         # set one entry to the default; drop the last element of the top list
         def paths(n, pre=()):
             if isinstance(n, list):
